@@ -255,11 +255,21 @@ def spd_case(draw):
     bw = draw(st.sampled_from([3, 2, 4, 6, 5, 1]))
     L0 = [[draw(uf) for _ in range(bw)] for _ in range(n)]
     return dict(n=n, bw=bw, L0=L0, shift=draw(st.sampled_from([1e-3, 0.1, 1.0, 10.0])), b=[draw(uf) for _ in range(n)],
-                scale=draw(st.sampled_from([1.0, 1e6, 1e-6, 1e150, 1e306, 1e-150])))      # any magnitude a double can hold
+                scale=draw(st.sampled_from([1.0, 1e6, 1e-6, 1e150, 1e306, 1e-150])),      # any magnitude a double can hold
+                # round 11: a whole-number matrix and right-hand side held in integer arrays (counts): diagonally dominant, so positive definite
+                int_kind=draw(st.sampled_from([None, None, None, 'i8', 'i4'])))
 
 
 def dense_from(case):
     n, bw = case['n'], case['bw']
+    if case.get('int_kind'):
+        A = np.zeros((n, n))
+        for j in range(n):
+            A[j, j] = 2 * bw + 1 + abs(int(round(3 * case['L0'][j][0])))
+            for i in range(1, bw):
+                if j + i < n:
+                    A[j + i, j] = A[j, j + i] = int(round(case['L0'][j][i]))
+        return A
     L = np.zeros((n, n))
     for j in range(n):
         for i in range(bw):
@@ -279,9 +289,15 @@ def to_banded(A, bw):
 
 def spd_body(case):
     from pydl.pydlutils.bspline import cholesky_band, cholesky_solve
+    if case.get('int_kind'):
+        case = dict(case, scale=1.0)
     A = dense_from(case)
     n, bw = case['n'], case['bw']
     l = to_banded(A, bw)
+    ik = case.get('int_kind')
+    if ik:
+        l = l.astype(ik)
+        note_label('integer-matrix')
     keep = l.copy()
     err, L = call(cholesky_band, l)
     with judge('cholesky_band'):
@@ -298,7 +314,9 @@ def spd_body(case):
         check(np.array_equal(l, keep), 'cholesky:input-modified')
     bvec = np.zeros(n + bw)
     bvec[:n] = np.array(case['b']) * (case['scale'] if abs(math.log10(case['scale'])) > 100 else 1.0)      # keeps the solution of order one at extreme scales
-    x = call(cholesky_solve, L, bvec.copy())
+    if ik:
+        bvec = np.round(10 * bvec)
+    x = call(cholesky_solve, L, bvec.astype(ik) if ik else bvec.copy())
     with judge('cholesky_solve'):
         x = np.asarray(x, dtype='f8')
         check(x.shape == bvec.shape and bool(np.all(x[n:] == 0)), 'solve:shape-or-padding')
